@@ -180,6 +180,17 @@ let () =
   let bl = ref { b_crc = false; b_difop_parse = false } in
   let w = ref world0 in
   let descs : (int, desc) Hashtbl.t = Hashtbl.create 8 in
+  let life : (int, lst) Hashtbl.t = Hashtbl.create 8 in
+  let rec nat_of_int n = if n <= 0 then O else S (nat_of_int (n - 1)) in
+  let rec int_of_nat = function O -> 0 | S k -> 1 + int_of_nat k in
+  let lcall i c =
+    let s0 = try Hashtbl.find life i with Not_found -> lnone in
+    let (s1, o) = lstep s0 c in
+    Hashtbl.replace life i s1; (s1, o) in
+  let lstate i =
+    let s = try Hashtbl.find life i with Not_found -> lnone in
+    if s.l_alive then pr "lstate %d %d %d %d %d bad=0\n" i (if s.l_init then 1 else 0) (if s.l_start then 1 else 0) (if s.l_handle then 1 else 0) (if s.l_recv then 1 else 0)
+    else pr "lstate %d gone\n" i in
   let flush_out () = Buffer.output_buffer oc out; Buffer.clear out in
   let do_event e =
     let (w', o) = step !bl g_crc_table !w e in
@@ -195,7 +206,7 @@ let () =
         | [] -> ()
         | "S" :: name ->
           pr "S %s\n" (String.concat " " name);
-          pend.cfgs <- []; pend.answers <- []; pend.inputs <- []; pend.queued <- []; w := world0; Hashtbl.reset descs;
+          pend.cfgs <- []; pend.answers <- []; pend.inputs <- []; pend.queued <- []; w := world0; Hashtbl.reset descs; Hashtbl.reset life;
           bl := { b_crc = false; b_difop_parse = false }
         | ["B"; crc; parse] -> bl := { b_crc = bool_of crc; b_difop_parse = bool_of parse }
         | ["D"; i; ty; wait; dense; mode; angle; nblk; minb; maxb; st; en; lclock; tsfirst; pktcb; tz; user; tail] ->
@@ -250,6 +261,33 @@ let () =
         | ["P"; i] -> do_event (EPkt (z_of_int (int_of_string i), []))
         | ["Z"; i] -> Hashtbl.remove descs (int_of_string i); do_event (EDestroy (z_of_int (int_of_string i)))
         | ["PAR"] | ["ENDPAR"] -> ()
+        | "LC" :: i :: rest ->
+          let i = int_of_string i in
+          let ok = (match rest with [o] -> o <> "0" | _ -> true) in
+          let (kind, npk) =
+            (try
+               let (mode, ic, _) = List.assoc i pend.inputs in
+               if mode = 2 then (KSock, 0)
+               else
+                 let frames = List.filter_map (fun (j, e) -> match e with EFrame (_, f) when j = i -> Some f | _ -> None) pend.queued in
+                 (KPcap, List.length (List.filter (fun f -> pcap_extract ic f <> None) frames))
+             with Not_found -> (KRaw, 0)) in
+          ignore (lcall i (LCreate (kind, ok, nat_of_int npk))); pr "lcreate %d\n" i; lstate i
+        | [("LI" | "LS" | "LX" | "LW" | "LE" | "LD" | "LP") as c; i] | [("LP") as c; i; _] ->
+          let i = int_of_string i in
+          let alive = (try (Hashtbl.find life i).l_alive with Not_found -> false) in
+          if not alive then pr "nodrv %d\n" i
+          else begin
+            (match c with
+             | "LI" -> (match lcall i LInit with (_, OBool b) -> pr "linit %d %d\n" i (if b then 1 else 0) | _ -> ())
+             | "LS" -> (match lcall i LStart with (_, OBool b) -> pr "lstart %d %d\n" i (if b then 1 else 0) | _ -> ())
+             | "LX" -> ignore (lcall i LStop); pr "lstop %d\n" i
+             | "LP" -> ignore (lcall i LFeed)
+             | "LW" -> (match lcall i LDrain with (_, OCount n) -> pr "lproc %d %d\n" i (int_of_nat n) | _ -> ())
+             | "LE" -> let s0 = Hashtbl.find life i in ignore (lcall i LEof); pr "leof %d %d\n" i (if s0.l_start && s0.l_kind = KPcap then 1 else 0)
+             | _ -> ignore (lcall i LDestroy); pr "ldestroy %d\n" i);
+            if c <> "LP" then lstate i
+          end
         | ["X"; i] -> do_event (EStop (z_of_int (int_of_string i)))
         | ["T"; i] -> do_event (ETemp (z_of_int (int_of_string i)))
         | ["G"; i] -> do_event (EDev (z_of_int (int_of_string i)))
